@@ -3,6 +3,7 @@ package rules
 import (
 	"fmt"
 	"go/ast"
+	"go/constant"
 	"go/token"
 	"go/types"
 	"sort"
@@ -696,38 +697,7 @@ func checkNumOrigin(e *Env, m *e1Model) {
 					continue
 				}
 				n++
-				o := stripConvO(res.Of(st.Val, nil, st))
-				good := false
-				detail := o.String()
-				if o.Kind == origin.KBin && o.Op == token.OR {
-					var lk, mask *origin.O
-					for _, a := range o.Args {
-						a = stripConvO(a)
-						if a.Kind == origin.KLookup && a.Index == 0 {
-							lk = a
-						}
-						if a.Kind == origin.KField && a.Field.Name() == "SeccompMask" {
-							mask = a
-						}
-					}
-					if lk != nil && mask != nil {
-						tbl := lk.Args[0]
-						key := lk.Args[1]
-						tblOK := tbl.Kind == origin.KField && tbl.Field.Name() == "SyscallNames" && origin.Equal(tbl.Args[0], mask.Args[0])
-						keyOK := strings.Contains(key.String(), ".Names[") || strings.HasSuffix(key.String(), ".Name")
-						// under found
-						foundOK := false
-						for _, cd := range flow.DomConds(b) {
-							if ex, ok := cd.V.(*ssa.Extract); ok && ex.Index == 1 && cd.Pol {
-								if l, ok := ex.Tuple.(*ssa.Lookup); ok && l == lk.Val.(*ssa.Extract).Tuple {
-									foundOK = true
-								}
-							}
-						}
-						good = tblOK && keyOK && foundOK
-						detail = fmt.Sprintf("table=%v key-from-names=%v found-edge=%v", tblOK, keyOK, foundOK)
-					}
-				}
+				good, detail := numberOrigin(res, st.Val, st, b, 0)
 				r.Check(good, "E1.num", load.FuncName(fn)+"/Num", p.Pos(st.Pos()),
 					"Num = uint32(arch.SyscallNames[name] | arch.SeccompMask) on the `found` edge, for the ranged name",
 					"the compared number is not uint32(table[name] | mask) of the group's architecture under `found` ("+detail+")")
@@ -735,6 +705,108 @@ func checkNumOrigin(e *Env, m *e1Model) {
 		}
 	}
 	r.Floor("E1.num(stores to SyscallWithConditions.Num)", n, 1)
+}
+
+// numberOrigin: v, used in block b, is uint32(arch.SyscallNames[name] | arch.SeccompMask) for a name taken from the group's
+// name lists, and b is only reached when the lookup found the name - either directly, or through a helper of the package
+// that returns (number, found): then the helper's number is that expression over its name parameter, returned together with
+// the lookup's own `found`, and the use is dominated by the helper's second result being true.
+func numberOrigin(res *origin.Resolver, v ssa.Value, at ssa.Instruction, b *ssa.BasicBlock, depth int) (bool, string) {
+	o := stripConvO(res.Of(v, nil, at))
+	detail := o.String()
+	if o.Kind == origin.KBin && o.Op == token.OR {
+		var lk, mask *origin.O
+		for _, a := range o.Args {
+			a = stripConvO(a)
+			if a.Kind == origin.KLookup && a.Index == 0 {
+				lk = a
+			}
+			if a.Kind == origin.KField && a.Field.Name() == "SeccompMask" {
+				mask = a
+			}
+		}
+		if lk != nil && mask != nil {
+			tbl := lk.Args[0]
+			key := lk.Args[1]
+			tblOK := tbl.Kind == origin.KField && tbl.Field.Name() == "SyscallNames" && origin.Equal(tbl.Args[0], mask.Args[0])
+			keyOK := strings.Contains(key.String(), ".Names[") || strings.HasSuffix(key.String(), ".Name") || (depth > 0 && key.Kind == origin.KParam)
+			// under found
+			foundOK := false
+			for _, cd := range flow.DomConds(b) {
+				if ex, ok := cd.V.(*ssa.Extract); ok && ex.Index == 1 && cd.Pol {
+					if l, ok := ex.Tuple.(*ssa.Lookup); ok && l == lk.Val.(*ssa.Extract).Tuple {
+						foundOK = true
+					}
+				}
+			}
+			if depth > 0 {
+				foundOK = true // judged by the caller on the helper's second result (see below)
+			}
+			return tblOK && keyOK && foundOK, fmt.Sprintf("table=%v key-from-names=%v found-edge=%v", tblOK, keyOK, foundOK)
+		}
+		return false, detail
+	}
+	// (number, found) := helper(name)
+	if depth == 0 && o.Kind == origin.KCall && o.Callee != nil && o.Index == 0 && len(o.Callee.Blocks) > 0 && o.Callee.Signature.Results().Len() == 2 {
+		h := o.Callee
+		call, _ := o.Val.(*ssa.Extract)
+		if call == nil {
+			return false, detail
+		}
+		hc, _ := call.Tuple.(*ssa.Call)
+		if hc == nil {
+			return false, detail
+		}
+		// the name argument comes from the group's name lists
+		keyOK := false
+		for _, a := range o.Args {
+			ks := a.String()
+			if strings.Contains(ks, ".Names[") || strings.HasSuffix(ks, ".Name") {
+				keyOK = true
+			}
+		}
+		// the use is on the edge where the helper's second result is true
+		useOK := false
+		second := flow.ResultN(hc, 1)
+		if second != nil {
+			if pol, known := flow.CondHolds(flow.DomConds(b), second); known && pol {
+				useOK = true
+			}
+		}
+		// in the helper: every return whose second result can be true returns the number expression under the lookup's found
+		hres := origin.NewResolver()
+		helperOK := true
+		nTrue := 0
+		for _, ret := range flow.Returns(h) {
+			rs := flow.RetResults(ret)
+			if k, ok := rs[1].(*ssa.Const); ok && k.Value != nil && !constant.BoolVal(k.Value) {
+				continue // (_, false)
+			}
+			nTrue++
+			okNum, _ := numberOrigin(hres, rs[0], ret, ret.Block(), 1)
+			// found: the second result is the lookup's own found, or the constant true under it
+			okFound := false
+			if ex, ok := rs[1].(*ssa.Extract); ok && ex.Index == 1 {
+				if _, isLk := ex.Tuple.(*ssa.Lookup); isLk {
+					okFound = true
+				}
+			}
+			if k, ok := rs[1].(*ssa.Const); ok && k.Value != nil && constant.BoolVal(k.Value) {
+				for _, cd := range flow.DomConds(ret.Block()) {
+					if ex, ok := cd.V.(*ssa.Extract); ok && ex.Index == 1 && cd.Pol {
+						if _, isLk := ex.Tuple.(*ssa.Lookup); isLk {
+							okFound = true
+						}
+					}
+				}
+			}
+			if !okNum || !okFound {
+				helperOK = false
+			}
+		}
+		return keyOK && useOK && helperOK && nTrue > 0, fmt.Sprintf("through %s: key-from-names=%v used-under-found=%v helper-returns-table-number=%v", h.Name(), keyOK, useOK, helperOK && nTrue > 0)
+	}
+	return false, detail
 }
 
 // checkRetContract: the return builder emits Val = uint32(a) with a = action | EPERM iff action == ActionErrno.
